@@ -785,6 +785,52 @@ func (x *X) c17defEvents(name string, evs []string) {
 
 var c17handlerTrace []string
 
+// c17statusPredicate: the function in the role of bodyAllowedForStatus — an unexported package-level function with
+// one int parameter and one bool result, called from GzipResponseWriter.WriteHeader with that method's parameter as
+// its only argument. Returns its name and the file (relative to the repo) that declares it.
+func c17statusPredicate(x *X, dir string) (string, string) {
+	wh := x.funcDecl(dir, "GzipResponseWriter", "WriteHeader")
+	if wh == nil || wh.Body == nil || wh.Type.Params == nil || len(wh.Type.Params.List) != 1 || len(wh.Type.Params.List[0].Names) != 1 {
+		return "", ""
+	}
+	param := wh.Type.Params.List[0].Names[0].Name
+	isIdent := func(e ast.Expr, name string) bool {
+		id, ok := e.(*ast.Ident)
+		return ok && id.Name == name
+	}
+	found := ""
+	ast.Inspect(wh.Body, func(n ast.Node) bool {
+		c, ok := n.(*ast.CallExpr)
+		if !ok || found != "" || len(c.Args) != 1 || !isIdent(c.Args[0], param) {
+			return true
+		}
+		id, ok := c.Fun.(*ast.Ident)
+		if !ok || ast.IsExported(id.Name) {
+			return true
+		}
+		fd := x.anyFuncDecl(dir, id.Name)
+		if fd == nil || fd.Recv != nil || fd.Body == nil || fd.Type.Params == nil || len(fd.Type.Params.List) != 1 ||
+			len(fd.Type.Params.List[0].Names) != 1 || !isIdent(fd.Type.Params.List[0].Type, "int") ||
+			fd.Type.Results == nil || len(fd.Type.Results.List) != 1 || len(fd.Type.Results.List[0].Names) > 1 ||
+			!isIdent(fd.Type.Results.List[0].Type, "bool") {
+			return true
+		}
+		found = id.Name
+		return true
+	})
+	if found == "" {
+		return "", ""
+	}
+	for _, f := range x.files(dir) {
+		for _, d := range f.Decls {
+			if fd, ok := d.(*ast.FuncDecl); ok && fd.Recv == nil && fd.Name.Name == found {
+				return found, strings.TrimPrefix(strings.TrimPrefix(x.fset.Position(f.Pos()).Filename, x.repo), "/")
+			}
+		}
+	}
+	return "", ""
+}
+
 func init() {
 	register("C17", func(x *X) error {
 		c17handlerTrace = nil
@@ -793,12 +839,21 @@ func init() {
 		w := &c17w{x: x, dir: dir}
 		w.init()
 		// the translated function (xlate.go): regenerated from the source on every run, proved equal to the model in
-		// Props/C17Xlate.lean
-		xlateEmit(x, dir+"/gzip_handler.go", []xlSpec{
-			{"", "bodyAllowedForStatus", "XBodyAllowed", nil, []string{"p0:Int:0"}, "Bool"},
-		})
-
-		// the traces of the exported entry points
+		// Props/C17Pins.lean. The function is found by ROLE, not by name or file: the unexported package-level
+		// func(int) bool that GzipResponseWriter.WriteHeader calls with its status parameter, in whatever non-test,
+		// non-verif file of the package it lives. When there is none (inlined into the caller, say) a stub with
+		// `translated = false` is written: the change detector stops building, the streams decide at the widened budget.
+		if name, rel := c17statusPredicate(x, dir); name != "" {
+			xlateEmit(x, rel, []xlSpec{
+				{"", name, "XBodyAllowed", nil, []string{"p0:Int:0"}, "Bool"},
+			})
+		} else {
+			x.imports = append(x.imports, "Fabio.Xlate.Rt")
+			x.opens = append(x.opens, "Fabio.Xlate")
+			sort.Strings(x.imports)
+			x.defRaw("namespace XBodyAllowed\n\n/-- NOT TRANSLATED (WriteHeader calls no package function func(int) bool with its status parameter any more): interface stub -/\nstructure St where\n  p0 : Int := 0\n\nabbrev Rho := Bool\n\ndef run (_ : St) : V (Rho × St) := .panic \"not translated\"\n\ndef translated : Bool := false\n\nend XBodyAllowed")
+			x.defStrList("xlateNotes", []string{"no function in the role of bodyAllowedForStatus"})
+		}
 		if fd := x.funcDecl(dir, "", "NewGzipHandler"); fd != nil {
 			var lit *ast.FuncLit
 			ast.Inspect(fd.Body, func(n ast.Node) bool {
